@@ -75,6 +75,7 @@ def viter_case(rng, kind, little=True):
         off += nxt if nxt < 4096 else size
     count = rng.choice([0, 1, n, n + 5, 0xffff, 2**32 - 1])
     start = rng.choice([0, 0, 0, 1, len(data) - 1, len(data), 2**32])
+    forced = False
     if rng.random() < 0.2:               # a well-formed first record whose link is 0 while more records are declared
         first = {"verdef": dict(vd_version=1, vd_flags=0, vd_ndx=1, vd_cnt=1, vd_hash=9, vd_aux=20, vd_next=0),
                  "verneed": dict(vn_version=1, vn_cnt=1, vn_file=1, vn_aux=16, vn_next=0),
@@ -82,9 +83,12 @@ def viter_case(rng, kind, little=True):
                  "vernaux": dict(vna_hash=3, vna_flags=0, vna_other=2, vna_name=1, vna_next=0)}[kind]
         data[0:size] = elfgen.pack(kind, 0, little, first)
         count, start = rng.choice([2, 3, n + 5, 0xffff]), 0
+        forced = True
     c = "viter %s %s %d %d %d %s | all | nexts %d" % (kind, "le" if little else "be", rng.choice((32, 64)), count, start, hx(data), n + 3)
     import props.C09 as C09
     c += " | %s" % C09.walk_script(rng, min(n, 4))      # provided Iterator methods (count / last / nth / ...) on the same chain
+    if forced:
+        c += " | walk 3 0 | walk 4 0 | walk 0 0 3 0 | walk 6 1"     # count / last / skip on a chain that ends before its declared count
     if kind == "verdaux":            # the names iterator over the same chain (public constructor)
         c += " | names %s" % hx(bytes(rng.choice([0, 0x41, 0x42, 0xc3, 0xa9, 0xff]) for _ in range(rng.choice([0, 1, 4, 12, 40]))))
     _counts[c] = (count, len(data))
